@@ -43,7 +43,8 @@ class Gen:
         self.ch = ch
         self.o = {"max_depth": 3, "max_sites": 22, "on_error": 0.3,
                   "switch": 0.12, "pipes": 0.3, "prefixes": 0.25,
-                  "macros": 0.0, "pyforms": 0.0, "i18n": 0.0}
+                  "macros": 0.0, "pyforms": 0.0, "i18n": 0.0,
+                  "entities": 0.0}
         self.o.update(opts or {})
         self.nsite = 0
         self.sites: dict[str, dict] = {}     # str(k) -> default value spec
@@ -124,6 +125,8 @@ class Gen:
             t = ch.choose(6)
             if t == 0:
                 alts[-1] = {"k": "lit", "src": "'lit'"}
+                if self.o["entities"] and ch.coin(0.5):
+                    alts[-1] = {"k": "lit", "src": "'&lt;x&amp;'"}
             elif t == 1 and role in ("content", "replace", "attr"):
                 alts[-1] = {"k": "lit", "src": "default"}
             elif t == 2:
@@ -264,6 +267,12 @@ class Gen:
                 el["static"].append(["s%d" % i, [["lit", ch.pick(
                     ["v", "a b", "&amp;c"]) + str(i)]]])
         if budget_left and ch.coin(0.3):
+            if o["entities"] and ch.coin(o["entities"]):
+                # an entity / an escaped semicolon in an earlier part
+                self.nvar += 1
+                el["define"].append(["", "v%d" % self.nvar, {
+                    "k": "lit", "src": ch.pick(["'&lt;'", "'a;;b'",
+                                                "'&amp;&gt;'", "'&#60;'"])}])
             for _ in range(1 + ch.choose(2)):
                 self.nvar += 1
                 el["define"].append([ch.pick(["local", "local", "global", ""]),
@@ -297,6 +306,9 @@ class Gen:
                 el["omit"] = self.expr("omit")
         if budget_left and not el["talns"] and el["omit"] != "" and \
                 ch.coin(0.3):
+            if o["entities"] and ch.coin(o["entities"]):
+                el["attributes"].append(["e0", {"k": "lit", "src": ch.pick(
+                    ["'&lt;'", "'a;;b'", "'&amp;x'"])}])
             for i in range(1 + ch.choose(2)):
                 el["attributes"].append(["d%d" % i, self.expr("attr")])
             if not has_on_error and el["static"] and ch.coin(0.3):
@@ -411,6 +423,11 @@ class Gen:
 
 # -- serialisation -------------------------------------------------------------------
 
+import re as _re
+
+_ENT = _re.compile(r"&#?\w+;")
+
+
 class Ser:
     """Tree -> source text, recording every expression occurrence."""
 
@@ -422,6 +439,7 @@ class Ser:
         self.pretty = pretty            # newlines / indentation / non-ASCII
         self.depth = 0
         self.nattr = 0
+        self.value_start = None     # where the current attribute value began
 
     def sp(self) -> str:
         """Separator before a statement attribute."""
@@ -441,7 +459,8 @@ class Ser:
         start = self.pos
         idx = len(self.occ)
         self.occ.append({"start": start, "kind": kind, "e": e["k"],
-                         "parent": self.stack[-1] if self.stack else None})
+                         "parent": self.stack[-1] if self.stack else None,
+                         "value_start": self.value_start})
         self.stack.append(idx)
         k = e["k"]
         if k == "P":
@@ -509,8 +528,10 @@ class Ser:
             self.w('"')
         pre = "" if n["talns"] else "tal:"
         for s in n["order"]:
+            self.value_start = None
             if s == "define":
                 self.w(self.sp() + '%sdefine="' % pre)
+                self.value_start = self.pos
                 for i, (scope, name, e) in enumerate(n["define"]):
                     if i:
                         self.w("; ")
@@ -527,6 +548,7 @@ class Ser:
                 self.w('"')
             elif s in ("content", "replace"):
                 mode, e = n[s]
+                self.value_start = self.pos
                 self.w(self.sp() + '%s%s="%s' % (pre, s, mode + " " if mode else ""))
                 self.expr(e, s)
                 self.w('"')
@@ -537,6 +559,7 @@ class Ser:
                 self.w('"')
             elif s == "attributes":
                 self.w(self.sp() + '%sattributes="' % pre)
+                self.value_start = self.pos
                 for i, (name, e) in enumerate(n["attributes"]):
                     if i:
                         self.w("; ")
@@ -586,6 +609,14 @@ class Ser:
         src = "".join(self.buf)
         for o in self.occ:
             o["text"] = src[o["start"]:o["end"]]
+            # what entity decoding removes before / inside this unit in the
+            # same attribute value (see C12: residual position drift)
+            vs = o.get("value_start")
+            o["ent_before"] = sum(
+                len(m.group(0)) - 1 for m in _ENT.finditer(
+                    src[vs:o["start"]])) if vs is not None else 0
+            o["ent_inside"] = sum(
+                len(m.group(0)) - 1 for m in _ENT.finditer(o["text"]))
             before = src[:o["start"]]
             o["line"] = before.count("\n") + 1
             o["col"] = o["start"] - (before.rfind("\n") + 1)
